@@ -2,6 +2,7 @@
 exchanged; operand reordering anywhere in the evaluator only under a commutativity test (rule shared with C03.4)."""
 import c03
 import cfg as C
+from db import AnalysisBroken
 import tree as T
 
 
@@ -55,10 +56,11 @@ def rule_batches(chk, db, cfgname):
                 count_args = [a for a in e.get('args', [])[:-1]]
                 dep = any(isinstance(y, dict) and y.get('k') == 'var' and y.get('n') in derived
                           for a in count_args for y in T.walk(a))
+                lam = [x for x in T.walk(e['args'][-1]) if isinstance(x, dict) and x.get('k') == 'lambda']
+                dep = dep or any(c['n'] in ind and not c.get('ref') for x in lam for c in x.get('caps', []))
                 if not dep:
                     continue
                 n += 1
-                lam = [x for x in T.walk(e['args'][-1]) if isinstance(x, dict) and x.get('k') == 'lambda']
                 caps = {c['n'] for x in lam for c in x.get('caps', [])}
                 # captured lambdas (by reference) that themselves capture the offset count too
                 inner = set(caps)
@@ -92,6 +94,271 @@ def rule_batches(chk, db, cfgname):
     chk.count('c16.2.batched_loops', n)
 
 
+def rule_stale_before_swap(chk, db, cfgname):
+    chk.rule('C16.3', 'operand reordering is complete: after std::swap(x, y) of two operand variables, no local that '
+             'was computed from x or y BEFORE the swap is used any more, unless it is swapped with its counterpart '
+             'alongside (swap(aConvex, bConvex)) or recomputed - a count or view taken from the operand that used to '
+             'be called x describes the other operand afterwards')
+    n = 0
+    for f in db.functions.values():
+        if not f.get('blocks') or not f['file'].startswith('src/'):
+            continue
+        swaps = []
+        for b in f['blocks']:
+            for e in b['ev']:
+                if e.get('k') == 'call' and T.short(e.get('fn', '')) == 'swap' and len(e.get('args', [])) == 2 and \
+                        e.get('recv') is None:
+                    a0, a1 = T.strip(e['args'][0]), T.strip(e['args'][1])
+                    if a0.get('k') == 'var' and a1.get('k') == 'var' and a0.get('d') and a1.get('d'):
+                        swaps.append((b['id'], e.get('i', 0), a0, a1, e))
+        if not swaps:
+            continue
+        g = C.Cfg(f)
+        if not g.ok():
+            continue
+        dom = g.dominators()
+        swapped = {x['d'] for s in swaps for x in (s[2], s[3])}
+        # reachability
+        succ = {i: [t for t in ss if t is not None and t >= 0] for i, ss in g.succ.items()}
+
+        def reach(src):
+            seen, work = set(), list(succ.get(src, []))
+            while work:
+                y = work.pop()
+                if y in seen:
+                    continue
+                seen.add(y)
+                work.extend(succ.get(y, []))
+            return seen
+        for (sb, si, x, y, se) in swaps:
+            n += 1
+            after = reach(sb)
+            stale = []
+            # locals the swap is control-dependent on decide the swap: they are about the state before it by
+            # construction (`if (inclusion < 0) swap(startVert, endVert)`), and stay meaningful afterwards
+            deciders = set()
+            work, seen = [sb], set()
+            while work:
+                yb = work.pop()
+                for d, k in g.control_deps(yb):
+                    if (d, k) in seen:
+                        continue
+                    seen.add((d, k))
+                    work.append(d)
+                    cond, _ = C.branch_cond(g.blocks[d])
+                    if cond is not None:
+                        deciders |= {z['d'] for z in T.walk(cond)
+                                     if isinstance(z, dict) and z.get('k') == 'var' and z.get('d')}
+            for b in f['blocks']:
+                for e in b['ev']:
+                    if e.get('k') != 'decl':
+                        continue
+                    before = (b['id'] == sb and e.get('i', 0) < si) or (b['id'] != sb and b['id'] in dom.get(sb, ()))
+                    if not before:
+                        continue
+                    for v in e['vars']:
+                        if not isinstance(v.get('init'), dict) or v.get('d') in swapped or v.get('d') in deciders:
+                            continue
+                        if not any(isinstance(z, dict) and z.get('k') == 'var' and z.get('d') in (x['d'], y['d'])
+                                   for z in T.walk(v['init'])):
+                            continue
+                        # used after the swap?
+                        for b2 in f['blocks']:
+                            for e2 in b2['ev']:
+                                later = (b2['id'] == sb and e2.get('i', 0) > si) or (b2['id'] != sb and b2['id'] in after)
+                                if later and e2 is not e and any(
+                                        isinstance(z, dict) and z.get('k') == 'var' and z.get('d') == v['d']
+                                        for z in T.walk(e2)):
+                                    stale.append((v['n'], e.get('ln'), e2.get('ln')))
+                                    break
+                            else:
+                                continue
+                            break
+            ok = not stale
+            chk.obligation(ok, {'function': f['name'][:70], 'swap': T.pstr(se)[:50], 'line': se.get('ln'),
+                                'locals computed from an operand before the swap and used after it': stale[:4]})
+            if not ok:
+                v, l0, l1 = stale[0]
+                chk.violation('C16.3', f, '%s taken before %s' % (v, T.pstr(se)[:40]),
+                              '%s is computed at line %s from an operand that %s (line %s) then exchanges, and is still '
+                              'used at line %s: it describes the other operand there' % (v, l0, T.pstr(se)[:40],
+                                                                                       se.get('ln'), l1),
+                              line=l0, cfg=cfgname)
+    chk.count('c16.3.swaps', n)
+
+
+class _Undef(Exception):
+    pass
+
+
+def _ieval(x, env, inits, sym, depth=0):
+    """integer value of an index-arithmetic tree: literals, + - * / %, min/max, never-reassigned locals through their
+    initialisers; any other leaf (a call such as NumTri()) is a free symbol valued by sym(text)"""
+    x = T.strip_copy(x)
+    k = x.get('k')
+    if k in ('int', 'lit', 'num') or (k == 'float'):
+        v = x.get('v', x.get('val'))
+        try:
+            return int(str(v).rstrip('uUlLzZ'))
+        except Exception:
+            raise _Undef('literal %r' % (v,))
+    if k == 'var':
+        if x.get('d') in env:
+            return env[x['d']]
+        if x.get('d') in inits and depth < 6:
+            return _ieval(inits[x['d']], env, inits, sym, depth + 1)
+        return sym(T.pstr(x))
+    if k == 'bin' and x.get('op') in ('+', '-', '*', '/', '%'):
+        l = _ieval(x['l'], env, inits, sym, depth)
+        r = _ieval(x['r'], env, inits, sym, depth)
+        if x['op'] == '+':
+            return l + r
+        if x['op'] == '-':
+            v = l - r
+            return v + (1 << 64) if v < 0 else v      # size_t arithmetic wraps
+        if x['op'] == '*':
+            return l * r
+        if r == 0:
+            raise _Undef('division by zero')
+        return l // r if x['op'] == '/' else l % r
+    if k == 'call' and T.short(x.get('fn', '')) in ('min', 'max') and len(x.get('args', [])) == 2:
+        l = _ieval(x['args'][0], env, inits, sym, depth)
+        r = _ieval(x['args'][1], env, inits, sym, depth)
+        return min(l, r) if T.short(x['fn']) == 'min' else max(l, r)
+    if k == 'ctor' and len(x.get('args', [])) == 1:
+        return _ieval(x['args'][0], env, inits, sym, depth)
+    return sym(T.pstr(x))
+
+
+def _beval(x, env, inits, sym):
+    x = T.strip_copy(x)
+    if x.get('k') == 'bin' and x.get('op') in ('<', '<=', '>', '>=', '!=', '=='):
+        l, r = _ieval(x['l'], env, inits, sym), _ieval(x['r'], env, inits, sym)
+        return {'<': l < r, '<=': l <= r, '>': l > r, '>=': l >= r, '!=': l != r, '==': l == r}[x['op']]
+    if x.get('k') == 'bin' and x.get('op') in ('&&', '||'):
+        l = _beval(x['l'], env, inits, sym)
+        return (l and _beval(x['r'], env, inits, sym)) if x['op'] == '&&' else (l or _beval(x['r'], env, inits, sym))
+    raise _Undef('condition %s' % T.pstr(x)[:40])
+
+
+def rule_tiling(chk, db, cfgname):
+    chk.rule('C16.4', 'a batched sweep tiles its operand: the index arithmetic of every offset-carrying batch loop '
+             '(start, continuation test, step, per-batch count - extracted from the source and evaluated for every '
+             'operand size 0..4100) visits offset + i for every i below the operand size and none beyond it; the '
+             'operand size is the one free quantity of the loop (e.g. aImpl->NumTri())')
+    n = 0
+    for f in db.functions.values():
+        if not f.get('blocks') or not f['file'].startswith('src/'):
+            continue
+        g = None
+        for b in f['blocks']:
+            for e in b['ev']:
+                if not (e.get('k') == 'call' and T.short(e.get('fn', '')) == 'for_each_n' and
+                        T.basename(e.get('fn', '')).startswith('manifold::')):
+                    continue
+                lam = [x for x in T.walk(e['args'][-1]) if isinstance(x, dict) and x.get('k') == 'lambda']
+                byval = {c['n'] for x in lam for c in x.get('caps', []) if not c.get('ref')}
+                if not byval:
+                    continue
+                g = g or C.Cfg(f)
+                loops = g.loops()
+                body = head = None
+                for h, blocks in loops.items():
+                    if b['id'] in blocks and (body is None or len(blocks) < len(body)):
+                        body, head = blocks, h
+                if body is None:
+                    continue
+                steps = []
+                for bb in f['blocks']:
+                    if bb['id'] in body:
+                        for ee in bb['ev']:
+                            if ee.get('k') == 'bin' and ee.get('op') == '+=' and T.strip(ee['l']).get('k') == 'var' \
+                                    and T.strip(ee['l'])['n'] in byval:
+                                steps.append(ee)
+                if len(steps) != 1:
+                    continue
+                n += 1
+                ov = T.strip(steps[0]['l'])
+                inits, assigned = {}, set()
+                for bb in f['blocks']:
+                    for ee in bb['ev']:
+                        if ee.get('k') == 'decl':
+                            for v in ee['vars']:
+                                if isinstance(v.get('init'), dict) and v.get('d'):
+                                    inits[v['d']] = v['init']
+                        for y in T.walk(ee):
+                            if isinstance(y, dict) and y.get('k') == 'bin' and y.get('op', '').endswith('=') and \
+                                    y.get('op') not in ('==', '!=', '<=', '>='):
+                                t = T.strip(y['l'])
+                                if t.get('k') == 'var' and t.get('d'):
+                                    assigned.add(t['d'])
+                start = inits.get(ov['d'])
+                inits = {d: i for d, i in inits.items() if d not in assigned}
+                cond, _ = C.branch_cond(g.blocks[head])
+                count = e['args'][-2]
+                if start is None or cond is None:
+                    raise AnalysisBroken('C16.4: batch loop at %s:%s has no recognisable start/continuation test'
+                                         % (f['file'], e.get('ln')))
+                bad = None
+                symbols = set()
+                sizes = list(range(0, 4101))
+                try:
+                    for N in sizes:
+                        def sym(text, N=N):
+                            symbols.add(text)
+                            return N
+                        try:
+                            env = {ov['d']: _ieval(start, {}, inits, sym)}
+                            covered = set()
+                            it = 0
+                            while _beval(cond, env, inits, sym):
+                                it += 1
+                                if it > 5000:
+                                    bad = (N, 'the loop does not terminate')
+                                    break
+                                k = _ieval(count, env, inits, sym)
+                                if k > 10000:
+                                    bad = (N, 'a batch of %d items at offset %d' % (k, env[ov['d']]))
+                                    break
+                                covered.update(range(env[ov['d']], env[ov['d']] + k))
+                                env[ov['d']] += _ieval(steps[0]['r'], env, inits, sym)
+                        except _Undef as u:
+                            if 'division by zero' in str(u):
+                                continue        # an operand size the arithmetic is undefined for: not judged
+                            raise
+                        if bad:
+                            break
+                        missing = [i for i in range(N) if i not in covered]
+                        beyond = [i for i in covered if i >= N]
+                        if missing:
+                            bad = (N, 'items %s%s are never visited' % (missing[:3], '...' if len(missing) > 3 else ''))
+                            break
+                        if beyond:
+                            bad = (N, 'item %d beyond the operand is visited' % min(beyond))
+                            break
+                except _Undef as u:
+                    raise AnalysisBroken('C16.4: index arithmetic of the batch loop at %s:%s is outside the evaluated '
+                                         'fragment (%s)' % (f['file'], e.get('ln'), u))
+                if len(symbols) != 1:
+                    raise AnalysisBroken('C16.4: the batch loop at %s:%s depends on %d free quantities %s - the operand '
+                                         'size cannot be identified' % (f['file'], e.get('ln'), len(symbols),
+                                                                        sorted(symbols)[:4]))
+                ok = bad is None
+                chk.obligation(ok, {'function': f['name'][:70], 'line': e.get('ln'), 'offset': ov['n'],
+                                    'operand size': sorted(symbols)[0], 'start': T.pstr(start)[:20],
+                                    'continues while': T.pstr(cond)[:50], 'step': T.pstr(steps[0]['r'])[:30],
+                                    'per-batch count': T.pstr(count)[:30], 'sizes evaluated': '0..4100',
+                                    'counter-example': bad})
+                if not ok:
+                    chk.violation('C16.4', f, 'batches do not tile %s' % sorted(symbols)[0],
+                                  'with %s = %d %s (loop: %s = %s; while %s; += %s; %s items per batch): part of the '
+                                  'operand is swept twice, never, or out of range' % (
+                                      sorted(symbols)[0], bad[0], bad[1], ov['n'], T.pstr(start)[:20],
+                                      T.pstr(cond)[:50], T.pstr(steps[0]['r'])[:30], T.pstr(count)[:30]),
+                                  line=e.get('ln'), cfg=cfgname)
+    chk.count('c16.4.batch_loops', n)
+
+
 def main(chk, tier):
     import db as D
     configs = ['seq', 'par'] if tier == 'quick' else ['seq', 'par', 'seq-debug']
@@ -103,8 +370,14 @@ def main(chk, tier):
         chk.functions_analysed += len(db.functions)
         c03.rule_operand_order(chk, db, cfgname, tab, 'C16.1')
         rule_batches(chk, db, cfgname)
+        rule_stale_before_swap(chk, db, cfgname)
+        rule_tiling(chk, db, cfgname)
     chk.floor('c16.1.reorder_events', 3 * len(configs))
     chk.floor('c16.2.batched_loops', len(configs))
+    chk.floor('c16.3.swaps', 2 * len(configs))
+    if not any(v.get('rule') == 'C16.2' for v in chk.violations):
+        # a functor that lost the offset (C16.2) is no offset-carrying loop any more: that is C16.2's report
+        chk.floor('c16.4.batch_loops', len(configs))
     return chk.finish(
         'Operand-order rule over the three places where Boolean/Minkowski operands are reordered (CsgNode::Boolean '
         'delegation, BatchUnion swap, Impl::Minkowski swap): each is control-dependent on a test, or a constant at '
